@@ -50,6 +50,10 @@ func (s *StreamSelectorPlanner) getMatchers() (*matchersResponse, error) {
 		if err != nil {
 			return nil, err
 		}
+		if selector.Op == "=~" || selector.Op == "!~" {
+			// match() searches for the pattern anywhere; a label matcher tests the whole value
+			_str = "^(?:" + _str + ")$"
+		}
 		var clause sql.SQLCondition
 		switch selector.Name {
 		case "__name__":
